@@ -657,11 +657,17 @@ func canonicalUnicodeCatName(catName string) (string, bool) {
 	}
 
 	normalized := normalizeUnicodeCategoryAlias(catName)
+	// An alias is only usable on its own if there's a table behind it: the
+	// enumerated properties (e.g. Word_Break) need a value, as in \p{wb=Extend}.
 	if canonical, ok := unicodeSupportedPropertyAliases[normalized]; ok {
-		return canonical, true
+		if _, ok := unicodeCategories[canonical]; ok {
+			return canonical, true
+		}
 	}
 	if canonical, ok := unicodeBarePropertyValueAliases[normalized]; ok {
-		return canonical, true
+		if _, ok := unicodeCategories[canonical]; ok {
+			return canonical, true
+		}
 	}
 
 	if eq := strings.IndexRune(catName, '='); eq >= 0 {
